@@ -142,6 +142,11 @@ def main(argv=None):
                     canary_fail.append(name)
                 continue
             tolerated = f is not None and any(p in name for p in f.get("obligations", []))
+            if rep["pass_name"] == "main":
+                # findings without an input class: the named obligation (statement-level) is the finding itself
+                for f0 in findings:
+                    if f0.get("unit") == rep["unit"] and not f0.get("when") and any(p in name for p in f0.get("obligations", [])):
+                        tolerated = True
             if tolerated:
                 continue
             n_obl += 1
